@@ -197,3 +197,199 @@ Proof.
       by (apply (deriv_pos_lt mills_f Phi); auto using mills_derive; lra).
     pose proof (N (- 1)). lra.
 Qed.
+
+(** decay of the density at -oo, in the form needed by [deriv_pos_vanishing_pos] *)
+Lemma xdens_low x : x < 0 -> - x * dens x <= 2 * c / - x.
+Proof.
+  intros Hx. pose proof (x2_dens_bound x) as B.
+  apply (Rmult_le_reg_r (- x)); [lra|].
+  replace (2 * c / - x * - x) with (2 * c) by (field; lra). lra.
+Qed.
+Lemma dens_low x : x < -1 -> dens x <= 2 * c / - x.
+Proof.
+  intros Hx. pose proof (xdens_low x) as B. pose proof (dens_pos x) as P.
+  assert (dens x <= - x * dens x) by nra. lra.
+Qed.
+
+(** *** 3. upper Mills bound *)
+Definition mu_f x := (x * x + 1) * Phi x + x * dens x.
+Lemma mu_derive x : is_derive mu_f x (2 * mills_f x).
+Proof. unfold mu_f, mills_f. dsolve. Qed.
+
+Lemma mu_pos x : 0 < mu_f x.
+Proof.
+  apply (deriv_pos_vanishing_pos mu_f (fun x => 2 * mills_f x) (2 * c)).
+  - apply mu_derive.
+  - intros y. pose proof (calc_mills y). unfold mills_f. lra.
+  - intros y Hy. unfold mu_f.
+    assert (Hy0 : y < 0) by lra. pose proof (xdens_low y Hy0). pose proof (Phi_pos y).
+    assert (0 < (y * y + 1) * Phi y) by (apply Rmult_lt_0_compat; nra). lra.
+Qed.
+
+Theorem calc_mills_up : forall x, x < 0 -> dens x * (- x) < (x * x + 1) * Phi x.
+Proof. intros x _. pose proof (mu_pos x). unfold mu_f in *. lra. Qed.
+
+(** *** 4. second lower Mills bound *)
+Definition ml_f x := dens x * (x * x + 2) - (- x * (x * x) + 3 * - x) * Phi x.
+Lemma ml_derive x : is_derive ml_f x (3 * mu_f x).
+Proof. unfold ml_f, mu_f. dsolve. Qed.
+
+Lemma ml_pos x : 0 < ml_f x.
+Proof.
+  apply (deriv_pos_vanishing_pos ml_f (fun x => 3 * mu_f x) (2 * c)).
+  - apply ml_derive.
+  - intros y. pose proof (mu_pos y). lra.
+  - intros y Hy. unfold ml_f.
+    assert (Hy0 : y < 0) by lra.
+    pose proof (dens_low y Hy) as D. pose proof (mills_neg_le y Hy0) as M.
+    assert (E : (- y * (y * y) + 3 * - y) * Phi y = (y * y + 3) * (- y * Phi y)) by ring.
+    rewrite E.
+    assert ((y * y + 3) * (- y * Phi y) <= (y * y + 3) * dens y)
+      by (apply Rmult_le_compat_l; nra).
+    lra.
+Qed.
+
+Theorem calc_mills_low2 : forall x, x < 0 ->
+  (- x * (x * x) + 3 * - x) * Phi x < dens x * (x * x + 2).
+Proof. intros x _. pose proof (ml_pos x). unfold ml_f in *. lra. Qed.
+
+(** *** 5. Sampford's inequality *)
+Definition sa_f x := Phi x * Phi x - dens x * (dens x + x * Phi x).
+Lemma sa_derive x : is_derive sa_f x (dens x * mu_f x).
+Proof. unfold sa_f, mu_f. dsolve. Qed.
+
+Lemma sa_pos x : 0 < sa_f x.
+Proof.
+  apply (deriv_pos_vanishing_pos sa_f (fun x => dens x * mu_f x) (2 * c * (2 * c))).
+  - apply sa_derive.
+  - intros y. apply Rmult_lt_0_compat; [apply dens_pos | apply mu_pos].
+  - intros y Hy. unfold sa_f.
+    assert (Hy0 : y < 0) by lra.
+    pose proof (dens_low y Hy) as D. pose proof (dens_pos y) as P.
+    pose proof (Phi_pos y) as Q. pose proof (calc_mills y) as M.
+    assert (B : 2 * c / - y <= 2 * c).
+    { apply (Rmult_le_reg_r (- y)); [lra|].
+      replace (2 * c / - y * - y) with (2 * c) by (field; lra). nra. }
+    assert (S : dens y + y * Phi y <= dens y) by nra.
+    assert (T : dens y * (dens y + y * Phi y) <= 2 * c * (2 * c / - y)).
+    { apply Rmult_le_compat; lra. }
+    replace (2 * c * (2 * c) / - y) with (2 * c * (2 * c / - y)) by (field; lra).
+    assert (0 < Phi y * Phi y) by (apply Rmult_lt_0_compat; lra).
+    lra.
+Qed.
+
+Theorem calc_sampford : forall x, dens x * (dens x + x * Phi x) < Phi x * Phi x.
+Proof. intros x. pose proof (sa_pos x). unfold sa_f in *. lra. Qed.
+
+(** *** 6. variance of the density restricted to a window *)
+Lemma wv_low_derive m x :
+  is_derive (fun x => Phi x - x * dens x + 2 * m * dens x + m * m * Phi x) x
+            ((x - m) * (x - m) * dens x).
+Proof. dsolve. Qed.
+Lemma wv_up_derive a b x :
+  is_derive (fun x => - (Phi x - x * dens x) - (a + b) * dens x - a * b * Phi x) x
+            ((x - a) * (b - x) * dens x).
+Proof. dsolve. Qed.
+
+Theorem calc_window_var : forall a b, a < b ->
+  let D := Phi b - Phi a in
+  0 <= 1 + (a * dens a - b * dens b) / D - ((dens a - dens b) / D) * ((dens a - dens b) / D)
+    <= ((b - a) / 2) * ((b - a) / 2).
+Proof.
+  intros a b Hab D.
+  assert (HD : 0 < D) by (unfold D; pose proof (Phi_incr a b Hab); lra).
+  set (m := (dens a - dens b) / D).
+  set (Q := (a * dens a - b * dens b) / D).
+  assert (Ep : dens a - dens b = m * D) by (unfold m; field; lra).
+  assert (Eq : a * dens a - b * dens b = Q * D) by (unfold Q; field; lra).
+  (* lower bound: the integral of (x - m)^2 dens over [a,b] is nonnegative *)
+  pose proof (deriv_nonneg_le _ _ a b (wv_low_derive m)) as L. cbv beta in L.
+  assert (L' : Phi a - a * dens a + 2 * m * dens a + m * m * Phi a
+            <= Phi b - b * dens b + 2 * m * dens b + m * m * Phi b).
+  { apply L; [|lra]. intros x _. apply Rmult_le_pos; [apply Rle_0_sqr | left; apply dens_pos]. }
+  assert (L2 : 0 <= D * (1 + Q - m * m)).
+  { replace (D * (1 + Q - m * m)) with (D + Q * D + m * m * D - 2 * m * (m * D)) by ring.
+    rewrite <- Ep, <- Eq. unfold D. lra. }
+  (* upper bound: the integral of (x - a)(b - x) dens over [a,b] is nonnegative *)
+  pose proof (deriv_nonneg_le _ _ a b (wv_up_derive a b)) as U. cbv beta in U.
+  assert (U' : - (Phi a - a * dens a) - (a + b) * dens a - a * b * Phi a
+            <= - (Phi b - b * dens b) - (a + b) * dens b - a * b * Phi b).
+  { apply U; [|lra]. intros x Hx. apply Rmult_le_pos; [nra | left; apply dens_pos]. }
+  assert (U2 : 0 <= D * ((a + b) * m - a * b - (1 + Q))).
+  { replace (D * ((a + b) * m - a * b - (1 + Q))) with (- D - Q * D + (a + b) * (m * D) - a * b * D) by ring.
+    rewrite <- Ep, <- Eq. unfold D. lra. }
+  assert (L3 : 0 <= 1 + Q - m * m).
+  { apply (Rmult_le_reg_l D); [exact HD|]. lra. }
+  assert (U3 : 0 <= (a + b) * m - a * b - (1 + Q)).
+  { apply (Rmult_le_reg_l D); [exact HD|]. lra. }
+  split; [exact L3|].
+  assert (SQ : 0 <= (m - (a + b) / 2) * (m - (a + b) / 2)) by apply Rle_0_sqr.
+  lra.
+Qed.
+
+(** all six mixed facts *)
+Theorem GaussDensity_facts :
+  (forall x, 0 < dens x + x * Phi x) /\
+  (forall x, x < 0 -> dens x * (- x) < (x * x + 1) * Phi x) /\
+  (forall x, x < 0 -> (- x * (x * x) + 3 * - x) * Phi x < dens x * (x * x + 2)) /\
+  (forall x, dens x * (dens x + x * Phi x) < Phi x * Phi x) /\
+  (forall a b, a < b -> a * (Phi b - Phi a) <= dens a - dens b <= b * (Phi b - Phi a)) /\
+  (forall a b, a < b ->
+      let D := Phi b - Phi a in
+      0 <= 1 + (a * dens a - b * dens b) / D - ((dens a - dens b) / D) * ((dens a - dens b) / D)
+        <= ((b - a) / 2) * ((b - a) / 2)).
+Proof.
+  repeat split.
+  - apply calc_mills. - apply calc_mills_up; assumption. - apply calc_mills_low2; assumption.
+  - apply calc_sampford. - apply calc_band; assumption. - apply calc_band; assumption.
+  - apply calc_window_var; assumption. - apply calc_window_var; assumption.
+Qed.
+End Calc.
+
+Print Assumptions GaussDensity_facts.
+
+(** ** The bridge to [GaussFacts]
+
+    [Phi] is any function with the distribution-only facts [GaussCDF] (instantiated
+    without hypotheses in GaussInst.v), whose derivative is [c * exp (- x^2 / 2)] and
+    which tends to 0 at -oo.  The only classical fact NOT proved here is the value of
+    the Gaussian integral, i.e. that the normalising constant [c] of the standard normal
+    density is [1 / sqrt (2 pi)] (hypothesis [Gauss_integral_value]); [gf_tail8] is a
+    numeric fact and is kept as a hypothesis too. *)
+Section Bridge.
+Variables (Phi Phiinv : R -> R) (c : R).
+Hypothesis Phi_derive : forall x, is_derive Phi x (c * exp (- (x * x) / 2)).
+Hypothesis Phi_lim_minf : is_lim Phi m_infty 0.
+Hypothesis Phi_cdf : GaussCDF Phi Phiinv.
+Hypothesis Gauss_integral_value : c = / sqrt (2 * PI).
+Hypothesis Phi_tail8 : / 4503599627370496 < Phi (- 8).
+
+Lemma phi_dens x : phi x = c * exp (- (x * x) / 2).
+Proof. unfold phi. rewrite Gauss_integral_value. unfold Rdiv. ring. Qed.
+
+Theorem GaussFacts_from_calculus : GaussFacts Phi Phiinv.
+Proof.
+  assert (c_pos : 0 < c).
+  { rewrite Gauss_integral_value. apply Rinv_0_lt_compat, sqrt_2PI_pos. }
+  assert (Phi_pos : forall x, 0 < Phi x) by (intros x; apply (gc_range _ _ Phi_cdf x)).
+  destruct (GaussDensity_facts Phi c c_pos Phi_derive Phi_pos Phi_lim_minf)
+    as (F1 & F2 & F3 & F4 & F5 & F6).
+  constructor.
+  - apply (gc_mono _ _ Phi_cdf).
+  - apply (gc_sym _ _ Phi_cdf).
+  - apply (gc_range _ _ Phi_cdf).
+  - apply (gc_inv _ _ Phi_cdf).
+  - intros x. rewrite phi_dens. apply F1.
+  - intros x Hx. rewrite phi_dens. apply F2, Hx.
+  - intros x Hx. rewrite phi_dens. apply F3, Hx.
+  - intros x. rewrite phi_dens. apply F4.
+  - intros a b Hab. rewrite !phi_dens. apply F5, Hab.
+  - intros a b Hab. rewrite !phi_dens. apply F6, Hab.
+  - apply (gc_window _ _ Phi_cdf).
+  - apply (gc_star _ _ Phi_cdf).
+  - exact Phi_tail8.
+Qed.
+End Bridge.
+
+Check GaussFacts_from_calculus.
+Print Assumptions GaussFacts_from_calculus.
